@@ -85,3 +85,17 @@ PROPS['C13'] = {
                     'a bit flip that still decompresses and unpickles is delivered as the changed value (not detectable by the framing layer)',
                     'sockets are simulated; thorough adds nothing kernel specific'],
 }
+
+PROPS['C14'] = {
+    'engine': 'rv.e2', 'level': 'exploration',
+    'rule': ('one case = 2-4 real SyncObj nodes with the real TCPTransport/TcpServer/TcpConnection on simulated sockets under virtual time; '
+             'a fault phase (1500-6000 ticks with refused connects, RST, black-holed pairs, dropped flows leaving both sides half-open, node '
+             'kill without FIN and restart, slow byte movement, tiny socket buffers), then a healthy phase. Attribution is checked on every '
+             'delivered message; re-establishment after B = retry + timeout + 1 s (slow until 3B), and two probe rounds (after a random idle '
+             'time, so links of every age are probed) check that "connected" means a message can be exchanged exactly once. distinct '
+             'non-trivial = distinct (case, set of fault kinds that occurred, cluster size) with at least one fault or a completed probe round.'),
+    'wall_cap': {'quick': 100, 'thorough': 1500},
+    'min_nontrivial': {'quick': 20, 'thorough': 100},
+    'assumptions': ['sockets and poller are simulated (rv/socksim.py); only physically possible faults are generated',
+                    'lingering dead sockets are counted in the evidence, not judged'],
+}
